@@ -28,6 +28,9 @@ READERS_BASE = {
     'modified_length': ({'BitStore'}, {
         'bits:Bits.tobitarray': 'selects the windowed copy for a length-limited file store',
     }),
+    '_bitarray': ({'BitStore'}, {
+        'bits:Bits.tobitarray': 'hands out a copy of the bitarray (A6 checks that it is a copy)',
+    }),
 }
 
 # operations whose result must depend on bit content only (J2): never on _pos / _filename
@@ -86,7 +89,7 @@ def rule_J1(ctx):
                     r.ok(f'{f.key}:{field}', reason=ctx.rk(root.key) in table)
                 else:
                     r.fail(f.key, x, f"reads '{field}', which only {sorted(classes) or sorted(table)} may consult: the result of this "
-                           f"code now depends on {'the stream position' if field == '_pos' else 'how the object was built or shared'}",
+                           f"code now depends on {'the stream position' if field == '_pos' else 'the raw buffer (pad bits, endianness, bits beyond the logical length)' if field == '_bitarray' else 'how the object was built or shared'}",
                            loc=f.loc(x), extra={'field': field})
         if not seen_any and field in ('_pos', 'immutable', 'modified_length'):
             raise AnalysisError(f"no read of '{field}' found anywhere (typing broke?)")
